@@ -21,6 +21,7 @@ DEMOS = {
     "C14": ("asn1rs-model/tests/seeded_demo.rs", [("cargo test --offline -p asn1rs-model --features protobuf --test seeded_demo", "fail")]),
     "C17": ("tests/seeded_demo.rs", [("cargo test --offline --features protobuf --test seeded_demo", "fail")]),
     "C04-agent2": ("tests/seeded_demo.rs", [("cargo test --offline --features protobuf --test seeded_demo", "fail")]),
+    "C04-agent8": ("tests/seeded_demo.rs", [("cargo test --offline --features protobuf --test seeded_demo", "fail")]),
     "C19": ("tests/seeded_demo.rs", [("cargo test --offline --test seeded_demo", "pass"), ("cargo test --offline --features descriptive-deserialize-errors --test seeded_demo", "fail")]),
 }
 
